@@ -76,7 +76,7 @@ def run(chk):
                        'serialization is refused; unregistered top-level types (with every kind of extension entry) and custom content in 6 input forms through parse, '
                        'Environment.parse, Bundle, MemoryStore / MemorySink / FileSystemStore created with allow_custom=False.  The accumulation loop of _STIXBase.__init__ is bounded only.')
     chk.assume('the documented custom_properties keyword is a known finding (admits custom properties in strict mode)')
-    for c in (K.list_clean_contract(), K.hashes_clean_contract(), K.reference_clean_contract(), K.extensions_clean_contract(), KP.dict_to_stix2_contract(), KP.init_prefix_contract()):
+    for c in (K.list_clean_contract(), K.hashes_clean_contract(), K.reference_clean_contract(), K.extensions_clean_contract(), K.observable_clean_contract(), KP.dict_to_stix2_contract(), KP.init_prefix_contract()):
         chk.prove(c); chk.canary(c)
     tabs = {v: T.frozen(v) for v in ('2.0', '2.1')}
 
